@@ -194,9 +194,9 @@ def run(ctx):
     d = ctx.stage("Dep")
     exe = ctx.harness("dep_replay", ["harness/dep/dep_replay.c"])
     scen = SCENARIOS + ([] if ctx.quick else SCENARIOS_THOROUGH)
-    path_limit = 4000 if ctx.quick else 400000          # 3-thread scenarios have <= 3516 paths: exhaustive in both tiers
-    path_limit4 = 1500 if ctx.quick else 400000         # 4-thread scenarios (2520 / 17640 paths): sampled in quick
-    explore_limit = 60000 if ctx.quick else 1000000
+    path_limit = 4000 if ctx.quick else 100000          # 3-thread scenarios have <= 3516 paths: exhaustive in both tiers
+    path_limit4 = 1500 if ctx.quick else 60000         # 4-thread scenarios (2520 / 17640 paths): sampled in quick
+    explore_limit = 60000 if ctx.quick else 200000
     byname = {sc["name"]: sc for sc in scen}
 
     # ---- 1. model level (tiny models, the cost is the JVM: two single-worker TLC processes at a time) ----------
@@ -283,7 +283,7 @@ def run(ctx):
         ctx.extra.setdefault("scenarios", []).append(info)
 
     # ---- random schedules (8 controlled threads) and free-running stress (16 threads) ----------------------
-    nrand = 300 if ctx.quick else 10000
+    nrand = 300 if ctx.quick else 4000
     for sc in RANDOM:
         schedf = os.path.join(ctx.scratch, sc["name"] + ".sched")
         n = len(sc["threads"])
@@ -292,7 +292,7 @@ def run(ctx):
                 f.write("".join(str(ctx.rng.randrange(n)) for _ in range(5 * n)) + "\n")
         collect(ctx, exe, "replay", sc, schedf, "random", executions)
     for sc in STRESS:
-        collect(ctx, exe, "stress", sc, str(10 if ctx.quick else 300), "stress", executions, extra=[str(ctx.seed)])
+        collect(ctx, exe, "stress", sc, str(10 if ctx.quick else 100), "stress", executions, extra=[str(ctx.seed)])
 
     # ---- 4. verdict: trace validation -----------------------------------------------------------------------
     ctx.evaluations = len(executions)
